@@ -83,7 +83,15 @@ def replay(spec):
     except Exception:
         pass
     prior = dict(reversed(list(prior.items())))      # as in the harness: the dictionary's order is not the vector's
+    import copy as _copy
+    before = _copy.deepcopy(prior)
+    try:
+        PIDInterface(names, M, prior).check_prior(dict(theta))     # an earlier interface over the same dictionary object
+    except Exception:
+        pass
     pid = PIDInterface(names, M, prior)
+    if prior != before:
+        return {"reproduced": True, "observed": "building an interface changed the caller's prior dictionary: %s -> %s" % (before, prior), "expected": "an unmodified dictionary"}
     try:
         got = pid.check_prior(theta)
         got = float(got)
